@@ -43,7 +43,7 @@ def oracleSigC04 (rate : Nat) (evs : List SigEv) : Option String :=
       if (runsBefore bursts o.t).any supportsEom then none
       else
         -- forced by the timer?
-        let earlier := outs.filter (fun p => p.t < o.t)
+        let earlier := outs.filter (fun p => p.t < o.t && p.msg != .err)
         match earlier.getLast? with
         | some p =>
           (match p.msg with
@@ -134,6 +134,47 @@ def oracleSigC05One (msgs : List Out) : Option String :=
   let eoms := msgs.filter (fun o => o.msg == .eom)
   if soms.length > 1 then some s!"one transmission produced {soms.length} StartOfMessage"
   else if eoms.length > 1 then some s!"one transmission produced {eoms.length} EndOfMessage"
+  else none
+
+/-- C09 on a full trace: every StartOfMessage (at sample p) is followed by an EndOfMessage — or a
+    newer StartOfMessage, which re-arms the timer — no later than p + (135 + 6) s; and no burst is
+    longer than the maximum frame's data (252 bytes). -/
+def oracleSigC09 (rate : Nat) (evs : List SigEv) : Option String :=
+  let msgs := evs.filterMap (fun e => match e with | .msg t m => some (t, m) | _ => none)
+  let tooLong := evs.findSome? (fun e => match e with
+    | .link t 'B' b => if b.length > Gen.MAX_BURST_LENGTH then some s!"burst of {b.length} bytes at sample {t} exceeds the maximum frame length" else none
+    | _ => none)
+  let lastT := (evs.map SigEv.time).foldl max 0
+  let rec go : List (Nat × OutMsg) → Option String
+    | [] => none
+    | (p, .som ..) :: rest =>
+      let closing := rest.find? (fun q => match q.2 with | .eom => true | .som .. => true | .err => false)
+      match closing with
+      | some q => if q.1 > p + (Gen.MAX_MESSAGE_DURATION_SECS + 6) * rate then
+            some s!"StartOfMessage at sample {p} was closed only after {(q.1 - p) / rate} s"
+          else go rest
+      | none =>
+        -- only a violation if the audio went on long enough for the timeout
+        if lastT > p + (Gen.MAX_MESSAGE_DURATION_SECS + 6) * rate then
+          some s!"StartOfMessage at sample {p} was never followed by an EndOfMessage although the audio continued for {(lastT - p) / rate} s"
+        else go rest
+    | _ :: rest => go rest
+  match tooLong with
+  | some e => some e
+  | none => go msgs
+
+/-- C14: what was delivered before the cut plus what repeated flush() calls return is exactly the
+    transmission's messages, in order, and flush() then returns None (and keeps returning None) -/
+def oracleSigC14 (h : List Byte) (full : Bool) (before flushed : List OutMsg) (endsNone : Bool) : Option String :=
+  let all := before ++ flushed
+  let expected : List OutMsg := if full then [.som h 0 0, .eom] else [.som h 0 0]
+  let same := all.length == expected.length && (all.zip expected).all (fun (a, e) =>
+    match a, e with
+    | .som t _ _, .som t' _ _ => t == t'
+    | .eom, .eom => true
+    | _, _ => false)
+  if !endsNone then some "flush() did not end with None"
+  else if !same then some s!"messages before the cut + from flush() are not the transmission's messages (got {all.length}, expected {expected.length})"
   else none
 
 end SameVerif.Spec
